@@ -33,6 +33,13 @@ def handle (op : String) (args : List String) : Option (String × String) :=
   | "u.de", [w, h] => do
     let w ← parseWords w; let h ← parseHint h
     pure ("ok " ++ showLimbs (de h w), "ok " ++ showLimbs (ofNat (valBase W w)))
+  -- `deserialize_in_place` is serde's provided method: deserialize, then overwrite the target
+  | "u.de_in_place", [_, w] => do
+    let w ← parseWords w
+    pure ("ok " ++ showLimbs (de none w), "ok " ++ showLimbs (ofNat (valBase W w)))
+  | "u.de_in_place", [_, w, h] => do
+    let w ← parseWords w; let h ← parseHint h
+    pure ("ok " ++ showLimbs (de h w), "ok " ++ showLimbs (ofNat (valBase W w)))
   | "u.roundtrip", [a] => do
     let a ← parseLimbs a
     pure ("ok " ++ showLimbs (de (ser a).declared (ser a).elems), "ok " ++ showLimbs (ofNat (val a)))
@@ -51,6 +58,20 @@ def handle (op : String) (args : List String) : Option (String × String) :=
       | none => "err"
     pure (m, o)
   | "i.de", [v, w, h] => do
+    let v ← parseInt v; let w ← parseWords w; let h ← parseHint h
+    let m := match deBigInt v h w with | some x => "ok " ++ showBigInt x | none => "err"
+    let o := match oSign v with
+      | some s => "ok " ++ showBigInt (BigInt.ofInt (signedVal s (valBase W w)))
+      | none => "err"
+    pure (m, o)
+  | "i.de_in_place", [_, v, w] => do
+    let v ← parseInt v; let w ← parseWords w
+    let m := match deBigInt v none w with | some x => "ok " ++ showBigInt x | none => "err"
+    let o := match oSign v with
+      | some s => "ok " ++ showBigInt (BigInt.ofInt (signedVal s (valBase W w)))
+      | none => "err"
+    pure (m, o)
+  | "i.de_in_place", [_, v, w, h] => do
     let v ← parseInt v; let w ← parseWords w; let h ← parseHint h
     let m := match deBigInt v h w with | some x => "ok " ++ showBigInt x | none => "err"
     let o := match oSign v with
